@@ -455,4 +455,94 @@ OffExecOK(e, idx) ==
 (* precision panic and nothing else) and, for engine executions, success.  *)
 (***************************************************************************)
 CallOK(e, idx) == Chk("C03", idx, e.out = CS!Outcome(e.call) /\ e.ok)
+
+(***************************************************************************)
+(* PolyTree results (C04).  e.tree lists the nodes in depth-first order:   *)
+(* [parent |-> 0 (root) or index, poly, isHole, level]; e.flat is the      *)
+(* flat Paths result for the same inputs (both in result units).           *)
+(***************************************************************************)
+CountCyclic(p, paths) == Cardinality({j \in 1..Len(paths) : SameCyclic(paths[j], p)})
+
+InOrNear(path, v) == WnPath(v, path) # 0 \/ ~FarClosedPath(v, path, Band4)
+
+\* smallest filled (positive) polygon of the tree that contains p; 0 if none
+InnermostOuter(tree, p) ==
+  LET cands == {k \in 1..Len(tree) : Area2(tree[k].poly) > 0 /\ WnPath(p, tree[k].poly) # 0} IN
+  IF cands = {} THEN 0
+  ELSE CHOOSE k \in cands : \A m \in cands : Abs(Area2(tree[k].poly)) <= Abs(Area2(tree[m].poly))
+
+C04OK(e) ==
+  LET T == e.tree  polys == [k \in 1..Len(e.tree) |-> e.tree[k].poly]
+      FarT(p) == FarClosed(p, polys, Band4) IN
+  \* the same polygons as the flat result, each exactly once
+  /\ Len(T) = Len(e.flat)
+  /\ \A k \in 1..Len(T) : CountCyclic(T[k].poly, polys) = CountCyclic(T[k].poly, e.flat)
+  \* structure: depth-first order, levels, IsHole <=> negative orientation <=> even level >= 2
+  /\ \A k \in 1..Len(T) :
+       /\ T[k].parent \in 0..(k - 1)
+       /\ T[k].level = (IF T[k].parent = 0 THEN 1 ELSE T[T[k].parent].level + 1)
+       /\ T[k].isHole = (T[k].level % 2 = 0)
+       /\ T[k].isHole = (Area2(T[k].poly) < 0)
+  \* every node lies inside its parent (vertices within the band; interior probes inside)
+  /\ \A k \in 1..Len(T) : T[k].parent # 0 =>
+       \A i \in 1..Len(T[k].poly) : InOrNear(T[T[k].parent].poly, T[k].poly[i])
+  /\ \A n \in 1..Len(e.probes) :
+       LET p == e.probes[n] IN
+       FarT(p) =>
+         /\ \A k \in 1..Len(T) : (T[k].parent # 0 /\ WnPath(p, T[k].poly) # 0) => WnPath(p, T[T[k].parent].poly) # 0
+         \* ... and inside no sibling
+         /\ \A k, m \in 1..Len(T) : (k < m /\ T[k].parent = T[m].parent) => ~(WnPath(p, T[k].poly) # 0 /\ WnPath(p, T[m].poly) # 0)
+         \* every hole's parent is the innermost filled boundary containing it
+         \* (decided at probes inside the hole but in none of its own children)
+         /\ \A k \in 1..Len(T) :
+              (T[k].isHole /\ WnPath(p, T[k].poly) # 0 /\ \A c \in 1..Len(T) : T[c].parent = k => WnPath(p, T[c].poly) = 0)
+                 => InnermostOuter(T, p) = T[k].parent
+
+TreeOpOK(e, idx) ==
+  /\ Chk("OUT", idx, OutOK(e))
+  /\ Has(e, "ARGS") => Chk("ARGS", idx, e.argsSame)
+  /\ Has(e, "C04") => Chk("C04", idx, C04OK(e))
+
+(***************************************************************************)
+(* Open subject paths (C09).  All coordinates of the observation are in    *)
+(* result units (inputs multiplied by e.k).  Coverage of a point of a      *)
+(* subject line is decided two-sidedly: a point that must be covered has   *)
+(* to be within 3 of the open solution, a point that must not be covered   *)
+(* has to be farther than 1.5 from it.                                     *)
+(***************************************************************************)
+OpenExpected(ct, fr, subj, clip, p) ==
+  CASE ct = 1 -> InSet(fr, clip, p)
+    [] ct = 2 -> ~InSet(fr, subj, p) /\ ~InSet(fr, clip, p)
+    [] OTHER -> ~InSet(fr, clip, p)
+
+FollowsInOrderR(path, q, r4) ==
+  /\ Len(path) >= 2
+  /\ LET n == Len(q)  m == Len(path) - 1
+         Near(v, s) == NearSeg(v, path[s], path[s + 1], r4)
+         Fwd(u, v, s) == LET a == path[s] b == path[s + 1] IN
+                         Dot(v[1] - u[1], v[2] - u[2], b[1] - a[1], b[2] - a[2]) >= -(r4 * LenUB(b[1] - a[1], b[2] - a[2]))
+         S[i \in 1..n] == IF i = 1 THEN {s \in 1..m : Near(q[1], s)}
+                          ELSE {s \in 1..m : Near(q[i], s) /\ \E t \in S[i - 1] : t < s \/ (t = s /\ Fwd(q[i - 1], q[i], s))}
+     IN  S[n] # {}
+
+C09OK(e) ==
+  LET subj == ScalePaths(e.subj, e.k)  clip == ScalePaths(e.clip, e.k)  open == ScalePaths(e.open, e.k)
+      FarIn(p) == FarClosed(p, subj, Band4) /\ FarClosed(p, clip, Band4) IN
+  \* open paths never appear in, or alter, the closed solution
+  /\ \A n \in 1..Len(e.probes) : RegionOKAt(e.ct, e.fr, subj, clip, e.sol, e.probes[n])
+  /\ \A n \in 1..Len(e.tree) : Len(e.tree[n].poly) >= 3 /\ Area2(e.tree[n].poly) # 0
+  \* the open solution consists of sub-polylines of the subject lines
+  /\ \A j \in 1..Len(e.solOpen) :
+       /\ Len(e.solOpen[j]) >= 2
+       /\ \E i \in 1..Len(open) : FollowsInOrderR(open[i], e.solOpen[j], 8) \/ FollowsInOrderR(RevPath(open[i]), e.solOpen[j], 8)
+  \* coverage
+  /\ \A n \in 1..Len(e.onProbes) :
+       LET p == e.onProbes[n] IN
+       FarIn(p) => IF OpenExpected(e.ct, e.fr, subj, clip, p) THEN NearOpen(p, e.solOpen, 12) ELSE FarOpen(p, e.solOpen, 6)
+
+OpenOpOK(e, idx) ==
+  /\ Chk("OUT", idx, OutOK(e))
+  /\ Chk("GENERATOR", idx, \A n \in 1..Len(e.onProbes) : OnOpenPaths(e.onProbes[n], ScalePaths(e.open, e.k)))
+  /\ Has(e, "ARGS") => Chk("ARGS", idx, e.argsSame)
+  /\ Has(e, "C09") => Chk("C09", idx, C09OK(e))
 =============================================================================
